@@ -91,6 +91,17 @@ func (ex *Exec) callBuiltin(b *ssa.Builtin, args []Value, site ssa.CallInstructi
 	case "delete":
 		ex.mapDelete(args[0], args[1])
 		return nil
+	case "close":
+		if ch, ok := args[0].(ChanV); ok {
+			if ex.closedChans == nil {
+				ex.closedChans = map[int]bool{}
+			}
+			if ch.id == 0 {
+				ex.goPanic("close of nil channel")
+			}
+			ex.closedChans[ch.id] = true
+		}
+		return nil
 	case "panic":
 		panic(&GoPanic{val: args[0], msg: "panic: " + ex.describePanic(args[0]) + ex.where()})
 	case "recover":
@@ -984,7 +995,47 @@ var intrinsicTable = map[string]intrinsicFn{
 	"(*sync.noCopy).Lock":                inNoop,
 }
 
+// time.newTimer: a timer object that never fires (AfterFunc / context.WithDeadline); Stop/Reset report "not active".
+func inNewTimer(ex *Exec, fn *ssa.Function, args []Value) (Value, bool) {
+	ex.stubsSeen["timers: never fire (time.AfterFunc / context.WithDeadline deadlines do not expire)"] = true
+	pt, ok := fn.Signature.Results().At(0).Type().Underlying().(*types.Pointer)
+	if !ok {
+		return nil, false
+	}
+	c := ex.newCell(pt.Elem())
+	if st, ok := pt.Elem().Underlying().(*types.Struct); ok {
+		for i := 0; i < st.NumFields(); i++ {
+			if st.Field(i).Name() == "initTimer" {
+				ex.storeCell(c.kids[i], ex.tc.Bool(true))
+			}
+		}
+	}
+	return PtrV{c: c}, true
+}
+
+// sync/atomic.Value as a plain interface cell (the real code goes through unsafe eface words)
+func inAtomicValueLoad(ex *Exec, fn *ssa.Function, args []Value) (Value, bool) {
+	p := args[0].(PtrV)
+	if p.c == nil {
+		ex.nilDeref()
+	}
+	return ex.loadCell(p.c.kids[0]), true
+}
+func inAtomicValueStore(ex *Exec, fn *ssa.Function, args []Value) (Value, bool) {
+	p := args[0].(PtrV)
+	if p.c == nil {
+		ex.nilDeref()
+	}
+	ex.storeCell(p.c.kids[0], args[1])
+	return nil, true
+}
+
 func init() {
+	intrinsicTable["(*sync/atomic.Value).Load"] = inAtomicValueLoad
+	intrinsicTable["(*sync/atomic.Value).Store"] = inAtomicValueStore
+	intrinsicTable["time.newTimer"] = inNewTimer
+	intrinsicTable["time.stopTimer"] = inNoop
+	intrinsicTable["time.resetTimer"] = inNoop
 	intrinsicTable["(*sync.Pool).Get"] = inPoolGet
 	intrinsicTable["math.Max"] = inFMax
 	intrinsicTable["math.Min"] = inFMin
